@@ -65,6 +65,7 @@
 	; Therefore, *_dispatch_init is only executed on first call.
 	;;;;
 	section .data
+	align	8	; the slot is read and written with single 8-byte accesses by racing first calls
 	%1_dispatched:
 		mbin_def_ptr	%1_mbinit
 
